@@ -10,10 +10,11 @@ Section Proofs.
   Variable string_to_f32 : str -> F32 H.  Variable string_to_f64 : str -> F64 H.
   Variable string_to_bool : str -> bool.  Variable string_to_time : str -> Z.  Variable string_to_span : str -> Z.
   Variable time_to_string : Z -> str.  Variable obj_to_string : Z -> str.
+  Variable arr_to_string : list (Variant.value H) -> str.
 
   Notation value := (value H).
   Notation convert_unsafe := (convert_unsafe H int_to_string string_to_int string_to_int_fallback f32_to_string f64_to_string
-                                             string_to_f32 string_to_f64 string_to_bool string_to_time string_to_span time_to_string obj_to_string).
+                                             string_to_f32 string_to_f64 string_to_bool string_to_time string_to_span time_to_string obj_to_string arr_to_string).
   Notation convert_safe := (convert_safe H).
 
   Lemma vtype_eqb_eq a b : vtype_eqb a b = true <-> a = b.
@@ -63,6 +64,74 @@ Section Proofs.
     destruct (vtype_eqb t TNull); [exact E|]. destruct (vtype_eqb t (type_of H v) || vtype_eqb t TObject); [exact E|].
     destruct v, t; try discriminate; exact E.
   Qed.
+
+  (* both managers meet the premises of the operator theorems: they never fail a type assertion themselves and
+     return the value itself when its own type is requested *)
+  Theorem managers_never_panic v t : convert_unsafe v t <> Panic /\ convert_safe v t <> Panic.
+  Proof.
+    split.
+    - unfold Variant.convert_unsafe. destruct (vtype_eqb t TNull); [discriminate|]. destruct (vtype_eqb t (type_of H v) || vtype_eqb t TObject); [discriminate|].
+      destruct (vtype_eqb t TString); [discriminate|]. destruct v, t; discriminate.
+    - unfold Variant.convert_safe. destruct (vtype_eqb t TNull); [discriminate|]. destruct (vtype_eqb t (type_of H v) || vtype_eqb t TObject); [discriminate|].
+      destruct v, t; discriminate.
+  Qed.
+  Theorem managers_identity v : convert_unsafe v (type_of H v) = Ok v /\ convert_safe v (type_of H v) = Ok v.
+  Proof. split; destruct v; reflexivity. Qed.
+
+  (* ---------- C07: widening conversions round-trip (type-unsafe manager) ---------- *)
+  Section RoundTrips.
+    Lemma wrap64_small z : - two63 <= z < two63 -> wrap64 z = z.
+    Proof. intros Hz. unfold wrap64, two63, two64 in *. rewrite Z.mod_small by lia. lia. Qed.
+
+    Definition step2 (v : value) (t1 t2 : vtype) := bind (convert_unsafe v t1) (fun w => convert_unsafe w t2).
+
+    Theorem int_long_roundtrip z : step2 (VInt H z) TLong TInteger = Ok (VInt H z) /\ step2 (VLong H z) TInteger TLong = Ok (VLong H z).
+    Proof. split; reflexivity. Qed.
+
+    Theorem bool_int_roundtrip b : step2 (VBool H b) TInteger TBoolean = Ok (VBool H b) /\ step2 (VBool H b) TLong TBoolean = Ok (VBool H b).
+    Proof. destruct b; split; reflexivity. Qed.
+
+    (* integer / long <-> time span, counted in milliseconds, whenever z * 10^6 fits in 64 bits *)
+    Theorem int_timespan_roundtrip z : - two63 <= z * ms < two63 ->
+      step2 (VInt H z) TTimeSpan TInteger = Ok (VInt H z) /\ step2 (VLong H z) TTimeSpan TLong = Ok (VLong H z).
+    Proof.
+      intros Hz. unfold step2. cbn [convert_unsafe vtype_eqb type_of orb bind]. rewrite (wrap64_small _ Hz).
+      rewrite Z.quot_mul by (unfold ms; lia). split; reflexivity.
+    Qed.
+
+    (* integer / long <-> date-time, counted in Unix seconds *)
+    Theorem int_datetime_roundtrip z :
+      step2 (VInt H z) TDateTime TInteger = Ok (VInt H z) /\ step2 (VLong H z) TDateTime TLong = Ok (VLong H z).
+    Proof.
+      unfold step2. cbn [convert_unsafe vtype_eqb type_of orb bind]. rewrite Z.div_mul by (unfold sec; lia). split; reflexivity.
+    Qed.
+
+    (* integer / long / boolean <-> string: under the laws of the host's decimal formatting and parsing *)
+    Hypothesis parse_format : forall z, string_to_int (int_to_string z) = Some z.
+    Hypothesis bool_strings : (string_to_bool [116; 114; 117; 101] = true) /\ (string_to_bool [102; 97; 108; 115; 101] = false).
+    Theorem int_string_roundtrip z :
+      step2 (VInt H z) TString TInteger = Ok (VInt H z) /\ step2 (VLong H z) TString TLong = Ok (VLong H z).
+    Proof.
+      unfold step2. cbn [convert_unsafe vtype_eqb type_of orb bind to_string]. unfold parse_int. rewrite parse_format. split; reflexivity.
+    Qed.
+    Theorem bool_string_roundtrip b : step2 (VBool H b) TString TBoolean = Ok (VBool H b).
+    Proof. destruct bool_strings as [Ht Hf]. destruct b; unfold step2; cbn [convert_unsafe vtype_eqb type_of orb bind to_string]; [rewrite Ht|rewrite Hf]; reflexivity. Qed.
+
+    (* through floating point: under the IEEE laws of the host (exact representation of small integers, exact widening) *)
+    Hypothesis trunc_of_int64 : forall z, - 2 ^ 53 <= z <= 2 ^ 53 -> trunc64 H (of_int64 H z) = z.
+    Hypothesis narrow_widen : forall f, narrow H (widen H f) = f.
+    Hypothesis bool_floats : (eq32 H (one32 H) (zero32 H) = false) /\ (eq32 H (zero32 H) (zero32 H) = true) /\ (eq64 H (one64 H) (zero64 H) = false) /\ (eq64 H (zero64 H) (zero64 H) = true).
+    Theorem int_double_roundtrip z : - 2 ^ 53 <= z <= 2 ^ 53 ->
+      step2 (VInt H z) TDouble TInteger = Ok (VInt H z) /\ step2 (VLong H z) TDouble TLong = Ok (VLong H z).
+    Proof. intros Hz. unfold step2. cbn [convert_unsafe vtype_eqb type_of orb bind]. rewrite (trunc_of_int64 z Hz). split; reflexivity. Qed.
+    Theorem float_double_roundtrip f : step2 (VFloat H f) TDouble TFloat = Ok (VFloat H f).
+    Proof. unfold step2. cbn [convert_unsafe vtype_eqb type_of orb bind]. rewrite narrow_widen. reflexivity. Qed.
+    Theorem bool_float_roundtrip b : step2 (VBool H b) TFloat TBoolean = Ok (VBool H b) /\ step2 (VBool H b) TDouble TBoolean = Ok (VBool H b).
+    Proof.
+      destruct bool_floats as (H1 & H2 & H3 & H4).
+      destruct b; unfold step2; cbn [convert_unsafe vtype_eqb type_of orb bind]; rewrite ?H1, ?H2, ?H3, ?H4; split; reflexivity.
+    Qed.
+  End RoundTrips.
 
   Section Ops.
     Variable convert : value -> vtype -> outcome value.
